@@ -1,10 +1,82 @@
 import RgVerif.Model.Sx
+import RgVerif.Model.GlobSet
+import RgVerif.Spec.GlobDoc
 namespace RgVerif.Driver.C12
-open RgVerif
+open RgVerif RgVerif.Glob
 
-/-- Request handler of property C12: `cmd` is the first token of the line, `args` the rest. -/
+/-- options travel as four bits `ci ls be ea` -/
+def parseOpts (s : String) : Option Opts :=
+  match s.toList with
+  | [a, b, c, d] =>
+    let bit (x : Char) : Option Bool := if x == '1' then some true else if x == '0' then some false else none
+    do pure { ci := (← bit a), ls := (← bit b), be := (← bit c), ea := (← bit d) }
+  | _ => none
+
+def docOpts (o : Opts) : GlobDoc.DocOpts := { ci := o.ci, ls := o.ls, be := o.be, ea := o.ea }
+
+/-- `(g <bits> cp cp …)` -/
+def parseGlobSx : Sx → Option (Opts × List Nat)
+  | .list (.atom "g" :: .atom bits :: cps) => do
+    let o ← parseOpts bits
+    let cs ← cps.mapM Sx.nat?
+    pure (o, cs)
+  | _ => none
+
+def errName : PErr → String
+  | .unclosedClass => "UnclosedClass"
+  | .invalidRange => "InvalidRange"
+  | .unopenedAlternates => "UnopenedAlternates"
+  | .unclosedAlternates => "UnclosedAlternates"
+  | .nestedAlternates => "NestedAlternates"
+  | .danglingEscape => "DanglingEscape"
+  | .fuel => "Fuel"
+
+def stratName : Strat → String
+  | .literal l => "Literal:" ++ toHex (utf8Str l)
+  | .basenameLiteral l => "BasenameLiteral:" ++ toHex (utf8Str l)
+  | .extension e => "Extension:" ++ toHex (utf8Str e)
+  | .pfx l => "Prefix:" ++ toHex (utf8Str l)
+  | .sfx l c => "Suffix:" ++ toHex (utf8Str l) ++ (if c then ":1" else ":0")
+  | .requiredExt e => "RequiredExtension:" ++ toHex (utf8Str e)
+  | .regex => "Regex"
+
+def bits (bs : List Bool) : String := String.ofList (bs.map fun b => if b then '1' else '0')
+
+def commaNats (ns : List Nat) : String := if ns.isEmpty then "-" else ",".intercalate (ns.map toString)
+
 def handle (cmd : String) (args : List Sx) : String :=
   match cmd, args with
+  | "c12.parse", [g] =>
+    match parseGlobSx g with
+    | none => "bad-op"
+    | some (o, cs) =>
+      match parse o cs with
+      | .error e => "err " ++ errName e
+      | .ok toks =>
+        let gl : Glob := { opts := o, tokens := toks }
+        s!"ok {stratName (strategyOf gl)} {toHex (toRegex o toks)} {if GlobDoc.okGlob (docOpts o) cs then 1 else 0} {if tokensValid toks then 1 else 0}"
+  | "c12.set", [.list (.atom "globs" :: gs), .list (.atom "paths" :: ps)] =>
+    match gs.mapM parseGlobSx, ps.mapM Sx.bytes? with
+    | some gs, some ps =>
+      match gs.mapM (fun (oc : Opts × List Nat) => match parse oc.1 oc.2 with
+                      | .ok toks => some ({ opts := oc.1, tokens := toks } : Glob)
+                      | .error _ => none) with
+      | none => "err"
+      | some globs =>
+        let oks := gs.map fun oc => GlobDoc.okGlob (docOpts oc.1) oc.2
+        let strats := globs.map strategyOf
+        let one (p : Bytes) : String :=
+          let c := candidate p
+          let m := globs.map fun g => g.isMatch p
+          let st := (globs.zip strats).map fun gs => stratAnswer gs.1 gs.2 c
+          let d := (gs.zip oks).map fun (oc, ok) => ok && GlobDoc.docMatch (docOpts oc.1) oc.2 p
+          s!"{commaNats (setMatches globs p)}|{bits m}|{bits st}|{bits d}|{if lastCompDots p then 1 else 0}"
+        bits oks ++ " " ++ ";".intercalate (ps.map one)
+    | _, _ => "bad-op"
+  | "c12.cand", [p] =>
+    match p.bytes? with
+    | some p => let c := candidate p; s!"{toHex c.basename} {toHex c.ext}"
+    | none => "bad-op"
   | _, _ => "bad-op"
 
 end RgVerif.Driver.C12
